@@ -385,8 +385,8 @@ func run(r *ev.Run) {
 		"match-none is not generated directly under conjunction/must (the constructors treat a match-none clause as absent)",
 		"phrase queries only on fields with term vectors",
 	}
-	r.MinDistinct = r.Scale(1500, 20000)
-	nWorlds := r.Scale(32, 480)
+	r.MinDistinct = r.Scale(4000, 20000)
+	nWorlds := r.Scale(80, 480)
 	nQueries := r.Scale(200, 600)
 	dir := r.TempDir()
 
